@@ -48,6 +48,7 @@ func init() {
 	probes["O34"] = probeO34
 	probes["O35"] = probeO35
 	probes["O36"] = probeO36
+	probes["O37"] = probeO37
 	probes["O23"] = probeO23
 	probes["O24"] = probeO24
 }
@@ -563,5 +564,27 @@ func probeO36() (bool, string) {
 		}{}
 		err := c.Unpack(&t, ucfg.VarExp)
 		return err != nil || t.D != 4*time.Second, fmt.Sprint(err, " ", t.D)
+	})
+}
+
+func probeO37() (bool, string) {
+	return guard(func() (bool, string) {
+		out := ""
+		bad := false
+		for _, opts := range [][]ucfg.Option{
+			{ucfg.PathSep("/"), ucfg.FieldAppendValues("c")},
+			{ucfg.FieldAppendValues("a.c"), ucfg.PathSep(".")},
+		} {
+			c, _ := ucfg.NewFrom(map[string]interface{}{"c": []int{1}, "a": map[string]interface{}{"c": []int{1}}}, opts...)
+			err := c.Merge(map[string]interface{}{"c": []int{2}, "a": map[string]interface{}{"c": []int{2}}}, opts...)
+			var m map[string]interface{}
+			c.Unpack(&m, opts...)
+			out += fmt.Sprint(err, " ", m, "; ")
+			l, _ := m["c"].([]interface{})
+			if la, _ := m["a"].(map[string]interface{})["c"].([]interface{}); len(l) != 2 && len(la) != 2 {
+				bad = true
+			}
+		}
+		return bad, out
 	})
 }
